@@ -28,6 +28,7 @@ import yatiml
 
 LOG = []
 P = 'tag:yaml.org,2002:'
+_KWONLY_DEFAULT = None
 
 
 def T(t):
@@ -149,7 +150,9 @@ def raise_exc(name, msg):
 
 EXC = {'AssertionError': AssertionError, 'ValueError': ValueError, 'KeyError': KeyError, 'TypeError': TypeError,
        'SeasoningError': yatiml.SeasoningError, 'RecognitionError': yatiml.RecognitionError,
-       'RuntimeError': RuntimeError, 'IndexError': IndexError, 'AttributeError': AttributeError}
+       'RuntimeError': RuntimeError, 'IndexError': IndexError, 'AttributeError': AttributeError,
+       'StopIteration': StopIteration, 'OSError': OSError, 'ZeroDivisionError': ZeroDivisionError,
+       'UserDefinedError': type('UserDefinedError', (Exception,), {}), 'LookupError': LookupError}
 
 
 def apply_node_op(node, op):
@@ -363,6 +366,19 @@ def build(spec):
                     sig.append('_yatiml_extra: OrderedDict' + (' = None' if (c.get('extra') == 'opt' or anydef) else ''))
                 body.append("    kw['_yatiml_extra'] = _yatiml_extra; self._yatiml_extra = "
                             "_yatiml_extra if _yatiml_extra is not None else OrderedDict()")
+            if c.get('kwonly'):
+                # keyword-only parameters (after a bare *): not constructor parameters in yatiml's sense (it reads
+                # argspec.args); what __init__ received for them is logged only when it is not the default
+                sig.append('*')
+                g['__KWD'] = _KWONLY_DEFAULT
+                for kp in c['kwonly']:
+                    kname, ktype = kp[0], T(kp[1])
+                    ann = ''
+                    if ktype != 'untyped':
+                        g['__T'][kname] = type_of(b, ktype)
+                        ann = ': __T[%r]' % kname
+                    sig.append('%s%s = __KWD' % (kname, ann))
+                    body.append('    if %s is not __KWD: kw[%r] = %s' % (kname, kname, kname))
             body.append("    self._kw = kw; LOG.append(('init', type(self).__name__, dict(kw)))")
             if c.get('raises'):
                 body.append('    raise_exc(%r, "boom from ctor")' % c['raises'])
